@@ -13,6 +13,7 @@ import numpy as _np
 import z3
 
 Fraction = fractions.Fraction
+_DEBUG = bool(__import__('os').environ.get('VERIF_DEBUG'))
 
 
 class Abort(BaseException):
@@ -117,12 +118,12 @@ class Engine:
             self.pc.append(zc if d else z3.Not(zc))   # (redundant for implied decisions, harmless)
             return d
         bt = self.branch_timeout_ms or self.timeout_ms
-        rt, _ = self.check(zc, timeout_ms=bt)
+        rt, rf = self._feasible(zc, bt), None
         if rt == 'unsat':
             # implied False on this path (recorded so that replays of longer prefixes stay aligned)
             self.decisions.append(False)
             return False
-        rf, _ = self.check(z3.Not(zc), timeout_ms=bt)
+        rf = self._feasible(z3.Not(zc), bt)
         if rf == 'unsat':
             if rt == 'unknown':
                 raise Abort('unknown branch feasibility')
@@ -135,6 +136,23 @@ class Engine:
         self.decisions.append(True)
         self.pc.append(zc)
         return True
+
+    def _feasible(self, zc, bt):
+        """feasibility of a branch.  With stub axioms present and the full query undecided, fall back to the
+        query without them: unsat there is definitive; sat there is taken as feasible (over-approximation:
+        an infeasible path can only add vacuous obligations, and any counterexample is replayed anyway)."""
+        if not self.axioms:
+            return self.check(zc, timeout_ms=bt)[0]
+        r, _ = self.check(zc, with_axioms=False, timeout_ms=bt)
+        if r == 'unsat':
+            return r
+        r2, _ = self.check(zc, timeout_ms=min(bt, 5000))
+        if r2 != 'unknown':
+            return r2
+        if r == 'sat':
+            self.notes.append('branch feasibility decided without stub axioms (over-approximation)')
+            return 'sat'
+        return 'unknown'
 
     # ---- exploration
     def explore(self, fn, maxpaths=2000, budget_s=None, decide=True, stop_on_cex=False):
@@ -189,23 +207,40 @@ class Engine:
         return res
 
     def decide(self, name, cond, info=None):
+        t0 = time.time()
+        o = self._decide(name, cond, info)
+        if _DEBUG:
+            print('    [decide %s -> %s (%s) %.1fs]' % (name, o.status, o.how, time.time() - t0), flush=True)
+        return o
+
+    def _decide(self, name, cond, info=None):
+        """info may carry 'hyp' (extra hypotheses for this obligation only, e.g. a concrete instantiation for a
+        vacuity twin) and 'timeout_ms'."""
         z = tob(cond)
         zs = z3.simplify(z)
+        hyp = [tob(h) for h in (info or {}).get('hyp', [])]
+        to = (info or {}).get('timeout_ms')
         if z3.is_true(zs):
             return Outcome(name, 'ok', None, info, list(self.decisions), 'trivial', trivial=True)
         neg = z3.Not(z)
-        sexpr = None
         # assumption slicing: without stub axioms first
         if self.axioms:
-            r, s = self.check(neg, with_axioms=False)
+            r, s = self.check(neg, *hyp, with_axioms=False, timeout_ms=to)
             if r == 'unsat':
                 return Outcome(name, 'ok', None, info, list(self.decisions), 'sliced', sexpr=_short(zs))
-        r, s = self.check(neg, with_axioms=True)
+        r, s = self.check(neg, *hyp, with_axioms=True, timeout_ms=to)
         if r == 'unsat':
             return Outcome(name, 'ok', None, info, list(self.decisions), 'full', sexpr=_short(zs))
         if r == 'sat':
             return Outcome(name, 'cex', s.model(), info, list(self.decisions), 'full', sexpr=_short(zs))
-        return Outcome(name, 'unknown', None, info, list(self.decisions), s.reason_unknown(), sexpr=_short(zs))
+        why = s.reason_unknown()
+        # the universal query is undecided: look for a counterexample at the point instantiations the harness
+        # offers (each is again a solver query; a sat answer is a concrete input, replayed like any other)
+        for k, ph in enumerate((info or {}).get('probe', [])):
+            r, s = self.check(neg, *[tob(h) for h in ph], with_axioms=True, timeout_ms=min(to or self.timeout_ms, 20000))
+            if r == 'sat':
+                return Outcome(name, 'cex', s.model(), info, list(self.decisions), 'probe%d' % k, sexpr=_short(zs))
+        return Outcome(name, 'unknown', None, info, list(self.decisions), why, sexpr=_short(zs))
 
 
 def _short(z, n=400):
